@@ -1,2 +1,288 @@
-/- C07 correspondence driver (stub: replaced when the property's model is built) -/
-def main : IO Unit := IO.println "stub"
+import PnVerif.Spec.MetaSpec
+/-
+  C07 correspondence driver.  One request per line on stdin, one answer per line on stdout.
+  The same lines go to harness/c07_meta.c (the real library).  Every request is executed on the MODEL
+  (Model/Meta.lean: arrays + hash tables, hash = the real Bernstein function transcribed below) and on
+  the SPEC (Spec/MetaSpec.lean: plain lists); the answer is `<model answer> ## <spec answer>`, or
+  `<model answer> ## =` when both are the same string.
+
+  name token  = <raw hex>:<nfc hex>:<legal 0|1>   ("-" = empty byte string)
+    raw   : the bytes handed to the C API
+    nfc   : what Unicode NFC makes of it (computed by the check with an independent implementation)
+    legal : ncmpii_check_name verdict predicted by the check
+  NFC and legality are parameters of the model (Env); the driver instantiates them from the tokens.
+
+    CREATE s fmt hd hv hg ha | OPEN s w hd hv hg ha | CLOSE s | ENDDEF s | REDEF s
+    DEFDIM s name size | RENDIM s dimid name | DEFVAR s name xtype n d1..dn | RENVAR s varid name
+    PUTATT s varid name T|L xtype n v1..vn | RENATT s varid name new | DELATT s varid name
+    COPYATT s varid name s2 varid2 | GETATT s varid name T|L
+    INQDIMID s name | INQVARID s name | INQATTID s varid name | INQATT s varid name
+    DUMP s | DISK s | TAB s
+-/
+open PnVerif.Meta
+
+namespace C07
+
+def hexDigit (c : Char) : Nat :=
+  if '0' ≤ c ∧ c ≤ '9' then c.toNat - '0'.toNat
+  else if 'a' ≤ c ∧ c ≤ 'f' then c.toNat - 'a'.toNat + 10
+  else if 'A' ≤ c ∧ c ≤ 'F' then c.toNat - 'A'.toNat + 10
+  else 0
+
+def parseHex (s : String) : Name :=
+  if s == "-" then [] else
+  let rec go : List Char → List Nat
+    | a :: b :: r => (hexDigit a * 16 + hexDigit b) :: go r
+    | _ => []
+  go s.toList
+
+def hexChar (n : Nat) : Char := if n < 10 then Char.ofNat (48 + n) else Char.ofNat (87 + n)
+
+def showHex (n : Name) : String :=
+  if n.isEmpty then "-" else String.ofList (n.flatMap (fun b => [hexChar (b / 16), hexChar (b % 16)]))
+
+/-- ncmpio_Bernstein_hash, transcribed: `unsigned int hash = len; hash = hash + (hash<<6) + (unsigned int)str[i];`
+    (char is signed on this platform: bytes ≥ 0x80 are sign-extended); `(hash ^ hash>>10 ^ hash>>20) & (hsize-1)` -/
+def bernstein (size : Nat) (nm : Name) : Nat :=
+  let hash : UInt32 := nm.foldl
+    (fun hsh c => hsh + (hsh <<< 6) + (if c ≥ 128 then UInt32.ofNat (c + 0xFFFFFF00) else UInt32.ofNat c))
+    (UInt32.ofNat nm.length)
+  ((hash ^^^ (hash >>> 10) ^^^ (hash >>> 20)) &&& (UInt32.ofNat size - 1)).toNat
+
+structure St where
+  nfcT : List (Name × Name) := []
+  legT : List (Name × Bool) := []
+  files : List (Option File) := [none, none]
+  sfiles : List (Option SFile) := [none, none]
+  disks : List (Option SHdr) := [none, none]
+  fmts : List Nat := [1, 1]
+
+def St.env (st : St) : Env :=
+  { h := bernstein,
+    nfc := fun n => match st.nfcT.find? (fun p => p.1 == n) with | some p => p.2 | none => n,
+    legal := fun n => match st.legT.find? (fun p => p.1 == n) with | some p => p.2 | none => true }
+
+/-- register a name token, return the raw bytes -/
+def St.name (st : St) (tok : String) : St × Name :=
+  match tok.splitOn ":" with
+  | [r, n, l] =>
+    let raw := parseHex r
+    ({ st with nfcT := (raw, parseHex n) :: st.nfcT, legT := (raw, l == "1") :: st.legT }, raw)
+  | _ => (st, parseHex tok)
+
+def showInts (l : List Int) : String := if l.isEmpty then "-" else ",".intercalate (l.map toString)
+def showNats (l : List Nat) : String := if l.isEmpty then "-" else ",".intercalate (l.map toString)
+
+/-- the inquiry interface of one open file: the dump below goes through these functions only -/
+structure Inq where
+  ndims : Nat
+  nvars : Nat
+  inqDim : Int → Int × Name × Nat
+  inqDimid : Name → Int × Int
+  inqVar : Int → Int × Name × Nat × List Nat × Nat
+  inqVarid : Name → Int × Int
+  inqNatts : Int → Int × Nat
+  inqAttname : Int → Int → Int × Name
+  inqAtt : Int → Name → Int × Nat × Nat
+  inqAttid : Int → Name → Int × Int
+  getAtt : Int → Name → Bool → Int × List Int
+
+def modelInq (E : Env) (f : File) : Inq :=
+  { ndims := f.ndims, nvars := f.nvars, inqDim := inqDim f, inqDimid := inqDimid E f, inqVar := inqVar f,
+    inqVarid := inqVarid E f, inqNatts := inqNatts f, inqAttname := inqAttname f, inqAtt := inqAtt E f,
+    inqAttid := inqAttid E f, getAtt := getAtt E f }
+
+def specInq (E : Env) (s : SFile) : Inq :=
+  { ndims := s.ndims, nvars := s.nvars, inqDim := sInqDim s, inqDimid := sInqDimid E s, inqVar := sInqVar s,
+    inqVarid := sInqVarid E s, inqNatts := sInqNatts s, inqAttname := sInqAttname s, inqAtt := sInqAtt E s,
+    inqAttid := sInqAttid E s, getAtt := sGetAtt E s }
+
+def dumpAtts (q : Inq) (varid : Int) : String :=
+  let (_, n) := q.inqNatts varid
+  String.join ((List.range n).map (fun (k : Nat) =>
+    let (e1, nm) := q.inqAttname varid (k : Int)
+    let (e2, ty, len) := q.inqAtt varid nm
+    let (e3, id) := q.inqAttid varid nm
+    let (e4, vals) := q.getAtt varid nm (ty == NC_CHAR)
+    s!" | A{varid}.{k} {e1} {showHex nm} {e2} {ty} {len} {e3} {id} {e4} {showInts vals}"))
+
+def dump (q : Inq) : String :=
+  let dims := (List.range q.ndims).map (fun (i : Nat) => q.inqDim (i : Int))
+  let ul : Int := match dims.findIdx? (fun d => d.2.2 == 0) with | some i => i | none => -1
+  let (_, ng) := q.inqNatts NC_GLOBAL
+  let hd := s!"nd={q.ndims} nv={q.nvars} ng={ng} ul={ul}"
+  let ds := String.join ((List.range q.ndims).map (fun (i : Nat) =>
+    let (e, nm, len) := q.inqDim (i : Int)
+    let (e2, id) := q.inqDimid nm
+    s!" | D{i} {e} {showHex nm} {len} {e2} {id}"))
+  let vs := String.join ((List.range q.nvars).map (fun (i : Nat) =>
+    let (e, nm, ty, dimids, na) := q.inqVar (i : Int)
+    let (e2, id) := q.inqVarid nm
+    s!" | V{i} {e} {showHex nm} {ty} {dimids.length} {showNats dimids} {na} {e2} {id}" ++ dumpAtts q (i : Int)))
+  hd ++ ds ++ dumpAtts q NC_GLOBAL ++ vs
+
+def showTab (T : Table) : String :=
+  let parts := (List.range T.length).filterMap (fun k =>
+    let b := bucket T k
+    if b.isEmpty then none else some s!"{k}:{showNats b}")
+  "{" ++ ";".intercalate parts ++ "}"
+
+def tabDump (f : File) : String :=
+  s!"D{showTab f.hdr.dims.tab} V{showTab f.hdr.vars.tab} G{showTab f.hdr.gatts.tab}" ++
+  String.join (f.hdr.vars.items.map (fun v => " A" ++ showTab v.atts.tab))
+
+def getSlot {α : Type} (l : List (Option α)) (s : Nat) : Option α := (l[s]?).getD none
+
+def both (m sp : String) : String := if m == sp then m ++ " ## =" else m ++ " ## " ++ sp
+
+def parseInts (l : List String) : List Int := l.filterMap String.toInt?
+
+/-- apply a mutating operation to slot `s` of model and spec -/
+def St.mutate (st : St) (s : Nat) (fm : File → File × String) (fs : SFile → SFile × String) : St × String :=
+  match getSlot st.files s, getSlot st.sfiles s with
+  | some f, some sf =>
+    let (f', rm) := fm f
+    let (sf', rs) := fs sf
+    ({ st with files := st.files.set s (some f'), sfiles := st.sfiles.set s (some sf') }, both rm rs)
+  | _, _ => (st, "closed")
+
+def St.query (st : St) (s : Nat) (fm : File → String) (fs : SFile → String) : St × String :=
+  match getSlot st.files s, getSlot st.sfiles s with
+  | some f, some sf => (st, both (fm f) (fs sf))
+  | _, _ => (st, "closed")
+
+def nat! (s : String) : Nat := s.toNat?.getD 0
+def int! (s : String) : Int := s.toInt?.getD 0
+
+def step (st : St) (line : String) : St × String :=
+  match line.trimAscii.toString.splitOn " " with
+  | ["CREATE", s, fmt, hd, hv, hg, ha] =>
+    let c : Cfg := ⟨nat! hd, nat! hv, nat! hg, nat! ha, nat! fmt⟩
+    ({ st with files := st.files.set (nat! s) (some (create c)),
+               sfiles := st.sfiles.set (nat! s) (some (sCreate (nat! fmt))),
+               fmts := st.fmts.set (nat! s) (nat! fmt),
+               disks := st.disks.set (nat! s) none }, "0 ## =")
+  | ["OPEN", s, w, hd, hv, hg, ha] =>
+    let fmt := (st.fmts[nat! s]?).getD 1
+    let c : Cfg := ⟨nat! hd, nat! hv, nat! hg, nat! ha, fmt⟩
+    match getSlot st.disks (nat! s) with
+    | none => (st, "nodisk")
+    | some d =>
+      ({ st with files := st.files.set (nat! s) (some (openFile st.env c d (w == "0"))),
+                 sfiles := st.sfiles.set (nat! s) (some (sOpen fmt d (w == "0"))) }, "0 ## =")
+  | ["CLOSE", s] =>
+    match getSlot st.files (nat! s), getSlot st.sfiles (nat! s) with
+    | some f, some sf =>
+      let d := close f
+      let agree := d == sClose sf
+      ({ st with files := st.files.set (nat! s) none, sfiles := st.sfiles.set (nat! s) none,
+                 disks := st.disks.set (nat! s) d }, if agree then "0 ## =" else "0 ## disk-differs")
+    | _, _ => (st, "closed")
+  | ["ENDDEF", s] =>
+    st.mutate (nat! s) (fun f => let r := enddef f; (r.1, toString r.2)) (fun f => let r := sEnddef f; (r.1, toString r.2))
+  | ["REDEF", s] =>
+    st.mutate (nat! s) (fun f => let r := redef f; (r.1, toString r.2)) (fun f => let r := sRedef f; (r.1, toString r.2))
+  | ["DEFDIM", s, name, size] =>
+    let (st, raw) := st.name name
+    let E := st.env
+    st.mutate (nat! s) (fun f => let r := defDim E f raw (int! size); (r.1, s!"{r.2.1} {r.2.2}"))
+                       (fun f => let r := sDefDim E f raw (int! size); (r.1, s!"{r.2.1} {r.2.2}"))
+  | ["RENDIM", s, dimid, name] =>
+    let (st, raw) := st.name name
+    let E := st.env
+    st.mutate (nat! s) (fun f => let r := renameDim E f (int! dimid) raw; (r.1, toString r.2))
+                       (fun f => let r := sRenameDim E f (int! dimid) raw; (r.1, toString r.2))
+  | "DEFVAR" :: s :: name :: xtype :: _n :: dimids =>
+    let (st, raw) := st.name name
+    let E := st.env
+    st.mutate (nat! s) (fun f => let r := defVar E f raw (int! xtype) (parseInts dimids); (r.1, s!"{r.2.1} {r.2.2}"))
+                       (fun f => let r := sDefVar E f raw (int! xtype) (parseInts dimids); (r.1, s!"{r.2.1} {r.2.2}"))
+  | ["RENVAR", s, varid, name] =>
+    let (st, raw) := st.name name
+    let E := st.env
+    st.mutate (nat! s) (fun f => let r := renameVar E f (int! varid) raw; (r.1, toString r.2))
+                       (fun f => let r := sRenameVar E f (int! varid) raw; (r.1, toString r.2))
+  | "PUTATT" :: s :: varid :: name :: api :: xtype :: _n :: vals =>
+    let (st, raw) := st.name name
+    let E := st.env
+    st.mutate (nat! s)
+      (fun f => let r := putAtt E f (int! varid) raw (api == "T") (int! xtype) (parseInts vals); (r.1, toString r.2))
+      (fun f => let r := sPutAtt E f (int! varid) raw (api == "T") (int! xtype) (parseInts vals); (r.1, toString r.2))
+  | ["RENATT", s, varid, name, newname] =>
+    let (st, raw) := st.name name
+    let (st, raw2) := st.name newname
+    let E := st.env
+    st.mutate (nat! s) (fun f => let r := renameAtt E f (int! varid) raw raw2; (r.1, toString r.2))
+                       (fun f => let r := sRenameAtt E f (int! varid) raw raw2; (r.1, toString r.2))
+  | ["DELATT", s, varid, name] =>
+    let (st, raw) := st.name name
+    let E := st.env
+    st.mutate (nat! s) (fun f => let r := delAtt E f (int! varid) raw; (r.1, toString r.2))
+                       (fun f => let r := sDelAtt E f (int! varid) raw; (r.1, toString r.2))
+  | ["COPYATT", s, varid, name, s2, varid2] =>
+    let (st, raw) := st.name name
+    let E := st.env
+    let same := nat! s == nat! s2
+    match getSlot st.files (nat! s), getSlot st.sfiles (nat! s) with
+    | some fin, some sin =>
+      st.mutate (nat! s2) (fun f => let r := copyAtt E fin (int! varid) raw f (int! varid2) same; (r.1, toString r.2))
+                          (fun f => let r := sCopyAtt E sin (int! varid) raw f (int! varid2) same; (r.1, toString r.2))
+    | _, _ => (st, "closed")
+  | ["GETATT", s, varid, name, api] =>
+    let (st, raw) := st.name name
+    let E := st.env
+    st.query (nat! s) (fun f => let r := getAtt E f (int! varid) raw (api == "T"); s!"{r.1} {showInts r.2}")
+                      (fun f => let r := sGetAtt E f (int! varid) raw (api == "T"); s!"{r.1} {showInts r.2}")
+  | ["INQDIMID", s, name] =>
+    let (st, raw) := st.name name
+    let E := st.env
+    st.query (nat! s) (fun f => let r := inqDimid E f raw; s!"{r.1} {r.2}") (fun f => let r := sInqDimid E f raw; s!"{r.1} {r.2}")
+  | ["INQVARID", s, name] =>
+    let (st, raw) := st.name name
+    let E := st.env
+    st.query (nat! s) (fun f => let r := inqVarid E f raw; s!"{r.1} {r.2}") (fun f => let r := sInqVarid E f raw; s!"{r.1} {r.2}")
+  | ["INQATTID", s, varid, name] =>
+    let (st, raw) := st.name name
+    let E := st.env
+    st.query (nat! s) (fun f => let r := inqAttid E f (int! varid) raw; s!"{r.1} {r.2}")
+                      (fun f => let r := sInqAttid E f (int! varid) raw; s!"{r.1} {r.2}")
+  | ["INQATT", s, varid, name] =>
+    let (st, raw) := st.name name
+    let E := st.env
+    st.query (nat! s) (fun f => let r := inqAtt E f (int! varid) raw; s!"{r.1} {r.2.1} {r.2.2}")
+                      (fun f => let r := sInqAtt E f (int! varid) raw; s!"{r.1} {r.2.1} {r.2.2}")
+  | ["DUMP", s] =>
+    let E := st.env
+    st.query (nat! s) (fun f => dump (modelInq E f)) (fun f => dump (specInq E f))
+  | ["DISK", s] =>
+    let E := st.env
+    match getSlot st.files (nat! s), getSlot st.sfiles (nat! s) with
+    | some f, some sf =>
+      let fmt := (st.fmts[nat! s]?).getD 1
+      let m := match f.disk with
+        | none => "nodisk"
+        | some d => dump (modelInq E (openFile E ⟨256, 256, 64, 8, fmt⟩ d true))
+      let sp := match sf.disk with
+        | none => "nodisk"
+        | some d => dump (specInq E (sOpen fmt d true))
+      (st, both m sp)
+    | _, _ => (st, "closed")
+  | ["TAB", s] =>
+    match getSlot st.files (nat! s) with
+    | some f => (st, tabDump f ++ " ## =")
+    | none => (st, "closed")
+  | _ => (st, "bad-op")
+
+partial def loop (h : IO.FS.Stream) (out : IO.FS.Stream) (st : St) : IO Unit := do
+  let line ← h.getLine
+  if line.isEmpty then return ()
+  let (st', ans) := step st line
+  out.putStrLn ans
+  out.flush
+  loop h out st'
+
+end C07
+
+def main : IO Unit := do
+  let out ← IO.getStdout
+  C07.loop (← IO.getStdin) out {}
